@@ -204,6 +204,16 @@ def main():
                 sigs_nontrivial.add(r["sig"])
         elif r.get("status") == "hang":
             locks = persistent_lock_waits(r.get("dump"), r.get("dump2"))
+            cfg = (r.get("case") or {}).get("cfg") or {}
+            revzero = bool(cfg.get("client_nofc") or cfg.get("server_nofc") or cfg.get("strip_req") or cfg.get("strip_resp"))
+            if revzero:
+                # Without flow control head-of-line blocking is expected: an application-level
+                # deadlock of the scripts would show as goroutines queueing on the send-path
+                # mutexes for ever. Only a wait on the receive-side lock of the revision-zero
+                # receiver is attributed to the library there.
+                # Waits on the table / registry / receiver locks, which the library never holds
+                # across a blocking operation, are attributed to the library there too.
+                locks = [l for l in locks if TABLE_LOCK_FUNCS.search(l[0])]
             if locks and cid in HANG_PROPS:
                 fn = locks[0][0].replace("github.com/jhump/grpctunnel.", "")
                 violations.append((cid, "library-lock-wait-never-ends:" + fn,
@@ -344,6 +354,7 @@ def count_hangs(work, nshards):
     return n
 
 
+TABLE_LOCK_FUNCS = re.compile(r"noFlowControlReceiver|defaultReceiver|\)\.(getStream|removeStream|allocateStream|createStream|recordRefusedStream|Err|isClosing|isClosed|addInstance|allChans|pick|add|remove|ready|waitForReady|unregister|reverseChannelsForKey|pickKey|keyIsReady)$")
 HANG_PROPS = {"C03", "C04", "C05", "C07", "C09", "C10", "C15"}
 GOHDR = re.compile(r"^goroutine (\d+) \[([^\]]*)\]:", re.M)
 
